@@ -6,6 +6,7 @@ import (
 	"go/token"
 	"go/types"
 	"regexp"
+	"strconv"
 	"strings"
 	"text/template"
 
@@ -601,6 +602,7 @@ func ruleNilMapWrite(c *core.Ctx, rule string) {
 // where s (or a trim of s) is known to be non-empty.
 func ruleStringIndex(c *core.Ctx, rule string) {
 	for _, fn := range c.P.Funcs {
+		ruleStringSlices(c, rule, fn)
 		var sites []*ssa.Index
 		for _, b := range fn.Blocks {
 			for _, in := range b.Instrs {
@@ -763,10 +765,10 @@ func nonEmptyKnown(x *absint.Exec, s *absint.State, v absint.Value) bool {
 func init() {
 	register(&Property{
 		ID:    "C08",
-		Rules: []string{"C08-R1", "C08-R2", "C08-R3", "C08-R4", "C08-R5", "C08-R6"},
+		Rules: []string{"C08-R1", "C08-R2", "C08-R3", "C08-R4", "C08-R5", "C08-R6", "C08-R7"},
 		Explain: "Decides the crash and hang mechanisms visible in the shape of this code (not general panic freedom): C08-R1 the (record, err) contract of ParseCallback on both sides — the parser passes (non-nil, nil) or (nil, non-nil) and no callback dereferences the record when an error is given; " +
 			"C08-R2 every recursive function has a ranking argument (depth counter bounded from above on the path to the call, or descent into a tree whose nodes are only linked to freshly allocated nodes); " +
-			"C08-R3 no panic/log.Fatal/os.Exit outside main.main, template.Must and regexp.MustCompile only on constants that parse; C08-R6 WithFileReaders stores a reader for every requested name before calling back; C08-R4 the accumulator map is written only when allocated; " +
+			"C08-R3 no panic/log.Fatal/os.Exit outside main.main, template.Must and regexp.MustCompile only on constants that parse; C08-R7 where acc[k][i] indexes a plain lookup in an accumulator the function filled itself, every key added is known to equal k; C08-R6 WithFileReaders stores a reader for every requested name before calling back; C08-R4 the accumulator map is written only when allocated; " +
 			"C08-R5 constant-position string indexing is reached only where the string is known non-empty.",
 		NotDecided: "index/slice bounds and nil dereferences in general, stack exhaustion under an absurd --maxdepth, termination of third-party code, a reader that never ends",
 		Run: func(c *core.Ctx) {
@@ -777,6 +779,7 @@ func init() {
 			ruleNilMapWrite(c, "C08-R4")
 			ruleStringIndex(c, "C08-R5")
 			ruleFileReaders(c, "C08-R6")
+			ruleUncheckedLookup(c, "C08-R7")
 		},
 	})
 }
@@ -834,6 +837,9 @@ func ruleFileReaders(c *core.Ctx, rule string) {
 		if k, ok := val.(absint.Const); ok && k.Key() == "c:nil" {
 			bad = append(bad, "a nil reader is stored for a requested file")
 		}
+		if iv, ok := val.(*absint.Iface); !ok || iv.T == nil || iv.T.String() != "*os.File" {
+			bad = append(bad, "the reader handed to the command is "+val.Key()+", not an opened *os.File: what the parser sees (bytes, line ends, line numbers) is no longer the file itself")
+		}
 	}
 	x.Hooks.BackEdge = func(x *absint.Exec, s *absint.State, f *absint.Frame, h *ssa.BasicBlock) {
 		if f.Fn != fn {
@@ -859,4 +865,272 @@ func ruleFileReaders(c *core.Ctx, rule string) {
 	for _, m := range bad {
 		c.Violate(rule, fname, "every-slot", c.P.Pos(fn.Pos()), m, nil)
 	}
+}
+
+// ruleUncheckedLookup is C08-R7: where a function indexes the result of a plain
+// (no comma-ok) lookup in an accumulator it filled itself — acc[k][i] — every
+// key it put into the accumulator is known to equal k on the path that added
+// it. Otherwise the map can be non-empty without holding k, the lookup yields
+// nil and the index panics.
+func ruleUncheckedLookup(c *core.Ctx, rule string) {
+	accT := c.P.LookupType(core.LibPath, "Accumulator")
+	if !requireAnchor(c, rule, "lib.Accumulator", accT != nil) {
+		return
+	}
+	n := 0
+	for _, fn := range c.P.Funcs {
+		var sites []*ssa.Lookup
+		for _, b := range fn.Blocks {
+			for _, in := range b.Instrs {
+				lk, ok := in.(*ssa.Lookup)
+				if !ok || lk.CommaOk || !types.Identical(lk.X.Type(), accT) {
+					continue
+				}
+				indexed := false
+				for _, r := range *lk.Referrers() {
+					switch r.(type) {
+					case *ssa.Index, *ssa.IndexAddr:
+						indexed = true
+					}
+				}
+				if indexed {
+					sites = append(sites, lk)
+				}
+			}
+		}
+		if len(sites) == 0 {
+			continue
+		}
+		fname := core.FuncName(fn)
+		x := newExec(c)
+		type added struct {
+			name string
+			eqs  map[string]bool
+			pos  string
+		}
+		var adds []added
+		keys := map[*ssa.Lookup]map[string]bool{}
+		guarded := map[*ssa.Lookup]bool{}
+		x.Hooks.Call = func(x *absint.Exec, s *absint.State, site ssa.CallInstruction, callee *ssa.Function, fnv absint.Value, args []absint.Value) (absint.Value, bool) {
+			if isMethod(callee, core.LibPath, "Accumulator", "Add") && len(args) == 3 {
+				eqs := map[string]bool{}
+				for k := range s.PC {
+					if !strings.HasPrefix(k, "ord(") {
+						continue
+					}
+					if o := x.Possible(s, k); len(o) == 1 && o[0] == "=" {
+						parts := splitTop(strings.TrimSuffix(strings.TrimPrefix(k, "ord("), ")"))
+						if len(parts) == 2 {
+							eqs[parts[0]+"|"+parts[1]] = true
+							eqs[parts[1]+"|"+parts[0]] = true
+						}
+					}
+				}
+				adds = append(adds, added{args[1].Key(), eqs, c.P.Pos(site.Pos())})
+				return absint.Const{}, true
+			}
+			return nil, false
+		}
+		x.Hooks.Instr = func(x *absint.Exec, s *absint.State, in ssa.Instruction) {
+			lk, ok := in.(*ssa.Lookup)
+			if !ok || len(s.Frames) == 0 {
+				return
+			}
+			for _, st := range sites {
+				if st == lk {
+					f := s.Frames[len(s.Frames)-1]
+					if kv, ok := f.Env[lk.Index]; ok {
+						// only a key that comes from outside (a field of the receiver or of the configuration, a
+						// parameter) is at issue; keys read back from the map itself or from a list collected
+						// from it are present by construction
+						loc := locOf(x, kv)
+						_, isSym := kv.(absint.Sym)
+						external := strings.HasPrefix(loc, "L:§") && !strings.Contains(loc, "[") && !strings.Contains(loc, "lookup(") || (isSym && loc == "" && x.KeepSyms[strings.TrimPrefix(kv.Key(), "§")])
+						if !external {
+							continue
+						}
+						if keys[lk] == nil {
+							keys[lk] = map[string]bool{}
+						}
+						keys[lk][kv.Key()] = true
+					} else if cst, ok := lk.Index.(*ssa.Const); ok {
+						if keys[lk] == nil {
+							keys[lk] = map[string]bool{}
+						}
+						keys[lk][absint.Const{V: cst.Value}.Key()] = true
+					}
+				}
+			}
+		}
+		x.Run(x.NewState(fn, nil, nil))
+		if !account(c, x, rule, fn) {
+			continue
+		}
+		_ = guarded
+		for _, lk := range sites {
+			n++
+			pos := c.P.Pos(lk.Pos())
+			c.Universe(rule+" indexed plain lookups", fname+" ("+pos+")")
+			var bad []string
+			for k := range keys[lk] {
+				for _, a := range adds {
+					if a.name == k || a.eqs[a.name+"|"+k] {
+						continue
+					}
+					bad = append(bad, fmt.Sprintf("%s: the accumulator receives the key %s, which is not known to equal the key %s it is later read with", a.pos, a.name, k))
+				}
+			}
+			bad = uniq(bad)
+			if len(keys[lk]) == 0 {
+				c.Discharge(rule, fname, "lookup "+lk.Name(), pos, "not reachable in the abstract exploration")
+			} else if len(bad) == 0 {
+				c.Discharge(rule, fname, "lookup "+lk.Name(), pos, fmt.Sprintf("every key added to the accumulator (%d sites) equals the key it is read with", len(adds)))
+			}
+			for _, m := range bad {
+				c.Violate(rule, fname, "lookup "+lk.Name(), pos, m+": the map can be non-empty without holding that key, the lookup yields a nil slice and indexing it panics", nil)
+			}
+		}
+	}
+	if n == 0 {
+		c.Note(rule + ": no indexed plain lookup in an accumulator")
+	}
+}
+
+// ruleStringSlices (part of C08-R5): s[:k], s[k:] and s[a:b] with constant
+// bounds on a string are reached only where the path condition says the
+// string is at least that long.
+func ruleStringSlices(c *core.Ctx, rule string, fn *ssa.Function) {
+	type site struct {
+		in   *ssa.Slice
+		need int64
+	}
+	var sites []site
+	for _, b := range fn.Blocks {
+		for _, in := range b.Instrs {
+			sl, ok := in.(*ssa.Slice)
+			if !ok {
+				continue
+			}
+			if bt, ok := sl.X.Type().Underlying().(*types.Basic); !ok || bt.Info()&types.IsString == 0 {
+				continue
+			}
+			var need int64
+			for _, bnd := range []ssa.Value{sl.Low, sl.High} {
+				if k, ok := bnd.(*ssa.Const); ok && k.Value != nil && k.Int64() > need {
+					need = k.Int64()
+				}
+			}
+			if need > 0 {
+				sites = append(sites, site{sl, need})
+			}
+		}
+	}
+	if len(sites) == 0 {
+		return
+	}
+	fname := core.FuncName(fn)
+	okAt, badAt := map[*ssa.Slice]bool{}, map[*ssa.Slice]string{}
+	failed := false
+	for _, root := range contextRoots(c.P, fn, 2) {
+		x := newExec(c)
+		x.Hooks.Instr = func(x *absint.Exec, s *absint.State, in ssa.Instruction) {
+			sl, ok := in.(*ssa.Slice)
+			if !ok || len(s.Frames) == 0 {
+				return
+			}
+			for _, st := range sites {
+				if st.in != sl {
+					continue
+				}
+				f := s.Frames[len(s.Frames)-1]
+				xv, ok := f.Env[sl.X]
+				if !ok {
+					if cst, isC := sl.X.(*ssa.Const); isC && cst.Value != nil && int64(len(constant.StringVal(cst.Value))) >= st.need {
+						okAt[sl] = true
+					}
+					return
+				}
+				if lenAtLeast(x, s, xv, st.need) {
+					okAt[sl] = true
+				} else {
+					badAt[sl] = x.Valuation(s)
+				}
+			}
+		}
+		x.Run(x.NewState(root, nil, nil))
+		if !account(c, x, rule, root) {
+			failed = true
+		}
+	}
+	if failed {
+		return
+	}
+	for _, st := range sites {
+		pos := c.P.Pos(st.in.Pos())
+		c.Universe(rule+" constant string indexings", fname+" "+st.in.String()+" ("+pos+")")
+		disc := "slice " + st.in.X.Name()
+		switch {
+		case badAt[st.in] != "":
+			c.Violate(rule, fname, disc, pos, fmt.Sprintf("a string is sliced at the constant position %d on a path that has not established it is that long (%s): a shorter string panics with slice bounds out of range", st.need, badAt[st.in]), nil)
+		case okAt[st.in]:
+			c.Discharge(rule, fname, disc, pos, fmt.Sprintf("reached only where the string is known to have at least %d bytes", st.need))
+		default:
+			c.Discharge(rule, fname, disc, pos, "not reachable in the abstract exploration")
+		}
+	}
+}
+
+// lenAtLeast: the path condition implies len(v) >= k.
+func lenAtLeast(x *absint.Exec, s *absint.State, v absint.Value, k int64) bool {
+	if k <= 1 && nonEmptyKnown(x, s, v) {
+		return true
+	}
+	lk := "len(" + v.Key() + ")"
+	for a := range s.PC {
+		if !strings.HasPrefix(a, "ord(") {
+			continue
+		}
+		parts := splitTop(strings.TrimSuffix(strings.TrimPrefix(a, "ord("), ")"))
+		if len(parts) != 2 {
+			continue
+		}
+		outs := x.Possible(s, a)
+		if len(outs) == 0 {
+			continue
+		}
+		has := func(o string) bool {
+			for _, y := range outs {
+				if y == o {
+					return true
+				}
+			}
+			return false
+		}
+		var bound int64 = -1
+		switch {
+		case parts[1] == lk && strings.HasPrefix(parts[0], "c:"):
+			// ord(K, len): "<" K<len ; "=" K==len ; ">" K>len
+			K, err := strconv.ParseInt(strings.TrimPrefix(parts[0], "c:"), 10, 64)
+			if err != nil || has(">") {
+				continue
+			}
+			bound = K
+			if !has("=") {
+				bound = K + 1
+			}
+		case parts[0] == lk && strings.HasPrefix(parts[1], "c:"):
+			K, err := strconv.ParseInt(strings.TrimPrefix(parts[1], "c:"), 10, 64)
+			if err != nil || has("<") {
+				continue
+			}
+			bound = K
+			if !has("=") {
+				bound = K + 1
+			}
+		}
+		if bound >= k {
+			return true
+		}
+	}
+	return false
 }
